@@ -403,3 +403,8 @@ fn tx_grow_at_maximum_is_noop() {
     }
 }
 }
+
+/// Accessor for other harness modules (the flag is private to stream_tx.rs).
+pub fn verif_vsock_closed(tx: &UserTx) -> bool {
+    tx.locked.read().vsock_closed
+}
